@@ -128,11 +128,21 @@ func vfReadFile(name string) ([]byte, error) {
 	return vf.FreshBytes(n), nil
 }
 
+var vfNoKill bool
+
+// vfStat: os.Stat on the model (only existence matters).
+func vfStat(name string) (os.FileInfo, error) {
+	if _, ok := vfFiles[name]; !ok {
+		return nil, os.ErrNotExist
+	}
+	return nil, nil
+}
+
 func vfRename(oldpath, newpath string) error {
 	if vfCrashed {
 		return errCrash
 	}
-	if vf.Bool() { // killed just before the (atomic) rename
+	if !vfNoKill && vf.Bool() { // killed just before the (atomic) rename
 		return vfKill()
 	}
 	d, ok := vfFiles[oldpath]
@@ -173,7 +183,31 @@ func vfJSONMarshal(v any) ([]byte, error) {
 func vfJSONUnmarshal(data []byte, v any) error {
 	for _, t := range vfTokens {
 		if vf.SameObject(data, t.data) && len(data) == len(t.data) {
-			*(v.(*JSONStorageFormat)) = *t.val
+			// a decoder builds new objects: deep copy, so that what the loader does to the
+			// loaded state is not mistaken for a property of the saved one
+			out := v.(*JSONStorageFormat)
+			out.Routers, out.Mappings = nil, nil
+			if t.val.Routers != nil {
+				out.Routers = map[netip.Addr]*StoredRouter{}
+				for k, r := range t.val.Routers {
+					if r == nil {
+						out.Routers[k] = nil
+						continue
+					}
+					cp := *r
+					if r.UsedAt != nil {
+						u := *r.UsedAt
+						cp.UsedAt = &u
+					}
+					out.Routers[k] = &cp
+				}
+			}
+			if t.val.Mappings != nil {
+				out.Mappings = map[string]StoredMapping{}
+				for k, m := range t.val.Mappings {
+					out.Mappings[k] = m
+				}
+			}
 			return nil
 		}
 	}
@@ -184,9 +218,12 @@ func vfJSONUnmarshal(data []byte, v any) error {
 // the process is killed at an arbitrary byte offset of any write (or never);
 // the next start must succeed and load the complete previous or the complete
 // new state.
-func VfC18Crash() {
-	const file = "/state.json"
-	hadOld := vf.Bool() // a previous complete state exists, or this is the very first shutdown
+// VfCrashScenario: the state file may hold a complete previous state, a stale
+// temporary file may exist, Stop runs for a new (possibly empty) state and the
+// process is killed at an arbitrary byte offset of any write, or never. On
+// return the model is a freshly started process over the files left behind.
+func VfCrashScenario(file string) (hadOld, newEmpty bool) {
+	hadOld = vf.Bool() // a previous complete state exists, or this is the very first shutdown
 	if hadOld {
 		oldVal := &JSONStorageFormat{Routers: map[netip.Addr]*StoredRouter{netip.Addr{}: nil}, Mappings: map[string]StoredMapping{}}
 		oldTok, _ := vfJSONMarshal(oldVal)
@@ -203,20 +240,38 @@ func VfC18Crash() {
 	s := &JSONFileStorage{filename: file}
 	s.routers = map[netip.Addr]*StoredRouter{netip.Addr{}: nil, netip.IPv6Loopback(): nil}
 	s.mappings = map[string]StoredMapping{}
+	newEmpty = vf.Bool() // the state being saved may be empty (all routers pruned, no mappings)
+	if newEmpty {
+		s.routers = map[netip.Addr]*StoredRouter{}
+	}
 	err := s.Stop()
 	vf.Assert(vfCrashed || err == nil, "stop-failed-without-crash")
 
-	// next start: a new process
+	// next start: a new process; nothing kills it
 	vfCrashed = false
+	vfNoKill = true
+	return hadOld, newEmpty
+}
+
+// VfC18Crash: after the scenario above the next start must succeed and load
+// the complete previous or the complete new state.
+func VfC18Crash() {
+	const file = "/state.json"
+	hadOld, newEmpty := VfCrashScenario(file)
 	s2, err := NewJSONFileStorage(file)
 	vf.Assert(err == nil && s2 != nil, "router-refuses-to-start-after-crash")
 	if err != nil {
 		return
 	}
 	n := len(s2.routers)
-	if hadOld {
+	switch {
+	case hadOld && newEmpty:
+		vf.Assert(n == 1 || n == 0, "loaded-neither-old-nor-new-state")
+	case hadOld:
 		vf.Assert(n == 1 || n == 2, "loaded-neither-old-nor-new-state")
-	} else {
+	case newEmpty:
+		vf.Assert(n == 0, "loaded-neither-empty-nor-new-state")
+	default:
 		vf.Assert(n == 0 || n == 2, "loaded-neither-empty-nor-new-state")
 	}
 	switch n {
